@@ -797,6 +797,9 @@ package server
 //@   at call PriorityMutex.HighPriorityLock after assume clockSane(self)
 //@   at call LockQueue.Push assert C06.neverearly: !lock.expried && implies(calls(LongWaitLockQueue.Len) == 0, lock.expriedTime <= now)
 //@   at call AddExpried assert C06.recheck,C03.recheck: !lock.expried && lock.expriedTime > now
+// the sweep never forces an expiry: whether a due hold is ended, re-armed for its keep-alive connection or left to
+// the leader (a follower's replayed holds) is doExpried's decision
+//@   at call doExpried assert C10.sweep.unforced,C06.sweep.unforced: !arg2
 //@   loop#1 invariant clockSane(self) && (lock == nil || (wheelEntry(self, lock) && implies(!lock.expried, lock.command != nil)))
 //@   loop#2 invariant clockSane(self)
 //@   loop#3 invariant lock == nil || wheelEntry(self, lock)
@@ -873,6 +876,35 @@ package server
 //@   ensures C12.commit.ackiff: implies(result0 != nil, (result0.ErrType == "") == (self.voter.commitId != old(self.voter.commitId)))
 //@   ensures C12.commit.value: implies(self.voter.commitId != old(self.voter.commitId), self.voter.commitId == request.ProposalId && self.voter.proposalHost == request.Host)
 //@   modifies ArbiterVoter.proposalHost, ArbiterVoter.proposalFromHost, ArbiterVoter.commitId
+// C12/C09: the log position a follower reports (to the election as its vote weight, to a new leader as the place
+// to resume from) is the cursor of its replication channel - the records it has applied - whether or not the
+// channel is connected at that moment; the manager's own field is only the leader's position
+//@ func (*ReplicationManager).GetCurrentAofID
+//@   requires self != nil
+//@   ensures C12.position.follower-cursor,C09.position.follower-cursor: implies(!self.isLeader && self.clientChannel != nil, result == self.clientChannel.currentAofId)
+//@   ensures C12.position.leader,C09.position.leader: implies(self.isLeader || self.clientChannel == nil, result == self.currentAofId)
+//@   modifies nothing
+
+// C12: a refusal by the remote acceptor is never taken for consent: the call handlers answer a refusal with an error
+// type in the reply (the numeric result may well be 0), so a reply is decoded as the member's vote / promise /
+// accept only when both the result code and the error type are clear
+//@ func (*ArbiterMember).DoVote
+//@   requires self != nil
+//@   at call Unmarshal assert C12.reply.refusal-is-no: callResultCommand.Result == 0 && callResultCommand.ErrType == ""
+//@   modifies all
+//@ func (*ArbiterMember).DoProposal
+//@   requires self != nil && implies(self.isSelf, self.manager != nil && self.manager.voter != nil && self.manager.voter.glock != nil)
+//@   at call Unmarshal assert C12.reply.refusal-is-no: (callResultCommand.Result == 0 && callResultCommand.ErrType == "") || callResultCommand.ErrType == "ERR_PROPOSALID"
+//@   ensures C12.reply.refusal-is-no: implies(isnil(result1) && !self.isSelf, calls(Unmarshal) == 1)
+//@   modifies all
+//@ func (*ArbiterMember).DoCommit
+//@   requires self != nil && implies(self.isSelf, self.manager != nil && self.manager.voter != nil && self.manager.voter.glock != nil)
+//@   at call Unmarshal assert C12.reply.refusal-is-no: callResultCommand.Result == 0 && callResultCommand.ErrType == ""
+//@   modifies all
+//@ func (*ArbiterMember).DoAnnouncement
+//@   requires self != nil
+//@   at call Unmarshal assert C12.reply.refusal-is-no: callResultCommand.Result == 0 && callResultCommand.ErrType == ""
+//@   modifies all
 
 //@ func (*ArbiterMember).DoSelfProposal
 //@   requires self != nil && self.manager != nil && self.manager.voter != nil && self.manager.voter.glock != nil
@@ -1566,6 +1598,7 @@ package server
 //@   modifies all
 //@ func (*LockDB).checkMillisecondExpried
 //@   requires self != nil
+//@   at call doExpried assert C10.sweep.unforced,C06.sweep.unforced: !arg2
 //@   loop#2 backedge C06.ms.handover: implies(nodeQueues[j] != nil, !lock.expried && lock.command.Expried < MILLISECOND_QUEUE_LENGTH)
 //@   loop#2 backedge C17.ms.reclaim: implies(calls(FreeLock) > athead(calls(FreeLock)) && athead(lock.manager) != nil && athead(lock.manager).refCount == 0, calls(addWaitRemoveLockManager) > athead(calls(addWaitRemoveLockManager)))
 //@   modifies all
@@ -1653,6 +1686,24 @@ package server
 //@   requires self != nil && aofLock != nil
 //@   ensures C03.ack.settled-stays,C11.ack.settled-stays: implies(calls(DoAckLock) == 0 && old(aofLock.lock) != nil && old(aofLock.lock.ackCount) == 0xff, old(aofLock.lock).ackCount == 0xff)
 //@   modifies all
+
+// C11: the record that withdraws a pending require-ack hold (its unlock / timeout record) removes the hold's OWN
+// table entries: the entry of aofLocks is keyed by the log position of the hold's lock record (remembered in
+// commandAofs under the request id), not by the position of the record being pushed now
+//@ func (*ReplicationAckDB).ProcessLeaderPushUnLock
+//@   requires self != nil && aofLock != nil && implies(aofLock.lock != nil, aofLock.lock.manager != nil && aofLock.lock.manager.lockDb != nil)
+//@   at call DoAckLock assert C11.withdraw.own-entries,C03.withdraw.own-entries: arg1 == aofLock.lock && !arg2 && !has(self.commandAofs[glockIndex], arg1.command.RequestId) && !has(self.aofLocks[glockIndex], old(self.commandAofs[glockIndex][aofLock.lock.command.RequestId]))
+//@   modifies all
+
+// C11: an acknowledgement slot handed out for a new record carries nothing of the record it served before: neither
+// "the leader's record has arrived" (locked) nor "the local log has it" (aofed) - either flag left over would let
+// the first of the two events of the new record send the acknowledgement
+//@ func NewReplicationAckLock
+//@   ensures C11.ackslot.clean: result != nil && !result.locked && !result.aofed && fresh(result)
+//@ func (*ReplicationAckDB).getAckLock
+//@   requires self != nil && self.freeAckLocksIndex <= len(self.freeAckLocks) && forall(i, 0, self.freeAckLocksIndex, self.freeAckLocks[i] != nil)
+//@   ensures C11.ackslot.clean: result != nil && !result.locked && !result.aofed
+//@   modifies ReplicationAckDB.*, ReplicationAckLock.*, E_Pserver_ReplicationAckLock
 
 // C08/C07: after a restart the log is continued in the NEWEST append file found (the last of the list FindAofFiles returns
 // in replay order): continuing an older one would put new records in front of records that were written before them
